@@ -3,7 +3,7 @@
    re-proved against the current source on every run. *)
 From Coq Require Import List NArith Bool Lia Arith.
 From Coq Require Import ZifyBool ZifyNat ZifyN.
-From SNT Require Import Base.Outcome Base.Sweep Image.KDTree Image.KDTreeProofs Image.Octree Image.OctreeExact
+From SNT Require Import Base.Outcome Base.Sweep Image.KDTree Image.KDTreeProofs Image.Octree Image.OctreeProofs Image.OctreeExact
      Image.Quantize Image.QuantizeProofs Image.QuantizeExact
      Image.Sixel Image.SixelInterp Image.SixelStrip Image.SixelBody Image.SixelPicture Image.SixelDraw Image.SixelCache Gen.TabSixel.
 Import ListNotations.
@@ -99,7 +99,8 @@ Definition spx_ok (p : spx) : Prop :=
 (* height >= 6, at least one column, rectangular, byte colours *)
 Definition src_ok (rows : list (list spx)) (w : nat) : Prop :=
   (6 <= length rows)%nat /\ (1 <= w)%nat /\
-  Forall (fun r => length r = w) rows /\ Forall (Forall spx_ok) rows.
+  Forall (fun r => length r = w) rows /\ Forall (Forall spx_ok) rows /\
+  (N.of_nat (length rows * w) <= max_pixels)%N.        (* the assumption OctreeProofs.max_pixels *)
 
 Lemma height6_pos rows : (6 <= length rows)%nat -> (6 <= height6 rows <= length rows)%nat.
 Proof.
@@ -122,7 +123,7 @@ Lemma sixel_eff_ok rows w :
   img_ok (sixel_eff rows) /\ length (sixel_eff rows) = height6 rows /\
   img_width (sixel_eff rows) = N.of_nat w /\ Forall (fun r => length r = w) (sixel_eff rows).
 Proof.
-  intros (Hh & Hw & Hrect & _). pose proof (height6_pos rows Hh) as H6.
+  intros (Hh & Hw & Hrect & _ & Hmax). pose proof (height6_pos rows Hh) as H6.
   unfold sixel_eff, rows6. remember (map (map (eff_px sixel_pre_tbl)) (firstn (height6 rows) rows)) as eff eqn:Eeff.
   assert (Hl : length eff = height6 rows) by (subst eff; rewrite map_length, firstn_length; lia).
   assert (Hr : Forall (fun r => length r = w) eff).
@@ -131,11 +132,12 @@ Proof.
   assert (Hwd : img_width eff = N.of_nat w).
   { clear Eeff. destruct eff as [|r0 rest]; [cbn [length] in Hl; lia|]. cbn [img_width]. inversion Hr; subst. reflexivity. }
   split; [|split; [exact Hl|split; [exact Hwd|exact Hr]]].
-  split; [intros E0; rewrite E0 in Hl; cbn [length] in Hl; lia|]. split; [lia|]. split.
+  split; [intros E0; rewrite E0 in Hl; cbn [length] in Hl; lia|]. split; [lia|]. split; [|split].
   - unfold rect. apply forallb_forall. intros r Hin. rewrite Forall_forall in Hr. rewrite (Hr r Hin), Hwd.
     apply Nat.eqb_eq. lia.
   - subst eff. apply Forall_forall. intros r Hin. apply in_map_iff in Hin. destruct Hin as (r0 & <- & _).
     apply Forall_forall. intros p Hp. apply in_map_iff in Hp. destruct Hp as (p0 & <- & _). apply eff_px_ok.
+  - unfold img_pixels. rewrite (concat_length_rect eff w Hr), Hl. nia.
 Qed.
 
 (* ---------- draw ---------- *)
@@ -293,7 +295,7 @@ Proof.
   destruct (Forall2_nth_pair _ _ _ _ _ Hrow2 Hpx) as (i & Hi & Hpal).
   rewrite (nth_error_nth _ _ _ Hqrow), Hi in Hc. inversion Hc; subst i.
   rewrite Hpal in Hpc. inversion Hpc; subst pc. apply src100_scale.
-  destruct Hsrc as (_ & _ & _ & Hok). rewrite Forall_forall in Hok.
+  destruct Hsrc as (_ & _ & _ & Hok & _). rewrite Forall_forall in Hok.
   specialize (Hok srow (nth_error_In _ _ Esrow)). rewrite Forall_forall in Hok. apply Hok, (nth_error_In _ _ Hsp).
 Qed.
 
@@ -355,7 +357,7 @@ Qed.
 Theorem distinct100_eff rows w :
   src_ok rows w -> distinct_colors (sixel_eff rows) = distinct100 rows.
 Proof.
-  intros (_ & _ & _ & Hok). unfold distinct_colors, distinct100, img_pixels, sixel_eff, sixel_src100.
+  intros (_ & _ & _ & Hok & _). unfold distinct_colors, distinct100, img_pixels, sixel_eff, sixel_src100.
   rewrite <- !concat_map. f_equal.
   erewrite (map_ext (eff_px sixel_pre_tbl)); [|apply eff_px_base].
   erewrite (map_ext src100); [|apply src100_base].
